@@ -77,6 +77,15 @@ Theorem c06_pub_then_rec_refuted : exists n sched, Loses unfixed_cfg n sched.
 Proof. exact pub_then_rec_refuted. Qed.
 Print Assumptions c06_pub_then_rec_refuted.
 
+(* ... and not only in a corner: in a stream of ANY length n, ANY frame k is lost by the schedule that attaches
+   inside the window of frame k (s8_sched_for n k = 2k producer steps; Pub k; subscribe; snapshot; the rest) *)
+Theorem c06_pub_then_rec_loses_any_frame : forall n k, k < n ->
+  g_prog (final unfixed_cfg n 1 (s8_sched_for n k)) = [] /\
+  map attached (g_subs (final unfixed_cfg n 1 (s8_sched_for n k))) = [true] /\
+  map (delivered unfixed_cfg) (g_subs (final unfixed_cfg n 1 (s8_sched_for n k))) = [seq 0 k ++ seq (S k) (n - S k)].
+Proof. exact pub_then_rec_loses_any_frame. Qed.
+Print Assumptions c06_pub_then_rec_loses_any_frame.
+
 (* each remaining hypothesis is necessary as well *)
 Theorem c06_snap_then_sub_refuted : exists n sched, Loses (mk RecThenPub SnapThenSub FilterGtLast None) n sched.
 Proof. exact snap_then_sub_refuted. Qed.
